@@ -265,20 +265,42 @@ pub fn guarded<T>(f: impl FnOnce() -> T) -> Result<T, PanicInfo> {
 // ---------------------------------------------------------------- memory digests
 
 /// Digest of everything the guest can address except DRAM outside the given windows.
+/// Bytes inside `exclude` ranges are read as zero.
 pub fn digest_state(cpu: &Cpu, dram_windows: &[(u32, u32)], exclude: &[(u32, u32)]) -> u64 {
-    use crate::harness::prng::Fnv;
-    let mut h = Fnv::new();
-    let excluded = |a: u32| exclude.iter().any(|(lo, hi)| a >= *lo && a < *hi);
+    let mut h: u64 = 0x9e3779b97f4a7c15;
+    #[inline(always)]
+    fn mix(h: u64, w: u64) -> u64 {
+        (h ^ w).wrapping_mul(0x2127599bf4325c37).rotate_left(29) ^ 0x165667b19e3779f9
+    }
     let mut feed = |base: u32, bytes: &[u8]| {
-        if exclude.iter().all(|(lo, hi)| *hi <= base || *lo >= base + bytes.len() as u32) {
-            h.bytes(bytes);
+        h = mix(h, base as u64 ^ ((bytes.len() as u64) << 32));
+        let overlaps = exclude.iter().any(|(lo, hi)| !(*hi <= base || *lo >= base + bytes.len() as u32));
+        if !overlaps {
+            let mut ch = bytes.chunks_exact(8);
+            for c in &mut ch {
+                h = mix(h, u64::from_le_bytes(c.try_into().unwrap()));
+            }
+            for b in ch.remainder() {
+                h = mix(h, *b as u64 | 0x100);
+            }
         } else {
-            for (i, b) in bytes.iter().enumerate() {
-                if !excluded(base + i as u32) {
-                    h.byte(*b);
-                } else {
-                    h.byte(0);
+            // split around the excluded ranges
+            let mut copy = bytes.to_vec();
+            for (lo, hi) in exclude {
+                let a = (*lo).max(base);
+                let b = (*hi).min(base + bytes.len() as u32);
+                if a < b {
+                    for x in &mut copy[(a - base) as usize..(b - base) as usize] {
+                        *x = 0;
+                    }
                 }
+            }
+            let mut ch = copy.chunks_exact(8);
+            for c in &mut ch {
+                h = mix(h, u64::from_le_bytes(c.try_into().unwrap()));
+            }
+            for b in ch.remainder() {
+                h = mix(h, *b as u64 | 0x100);
             }
         }
     };
@@ -291,6 +313,6 @@ pub fn digest_state(cpu: &Cpu, dram_windows: &[(u32, u32)], exclude: &[(u32, u32
         let b = (*hi - 0x400000) as usize;
         feed(*lo, &cpu.bus.dram[a..b]);
     }
-    h.bytes(&cpu.bus.io_port_in);
-    h.0
+    feed(0xf000_0000, &cpu.bus.io_port_in);
+    h
 }
